@@ -570,8 +570,8 @@ func opPredict(w *World, op *Op) {
 		price.Add(f, big.NewInt(1))
 	}
 	args, data := w.callArgs(op, gas, price)
-	if kind == "estimate" {
-		args.Gas = nil
+	if kind == "estimate" && op.Typ != 1 {
+		args.Gas = nil // Typ 1: the request carries its own gas allowance (the search is capped by it)
 	}
 	bz, _ := json.Marshal(args)
 	before := w.markState()
@@ -754,7 +754,7 @@ func genC08(rng *rand.Rand, seed uint64, tier string) *Script {
 	for b := 0; b < nb; b++ {
 		// prediction first: the predicted tx must be the first of the next block, on exactly this state
 		if rng.IntN(2) == 0 {
-			p := Op{K: "predict", W: pred, Mut: pick(rng, "call", "call", "estimate")}
+			p := Op{K: "predict", W: pred, Mut: pick(rng, "call", "call", "estimate"), Typ: rng.IntN(2)}
 			switch rng.IntN(8) {
 			case 0:
 				p.To, p.Data, p.Gas, p.Note = "c:nest", hexWord(1+rng.IntN(5)), pick(rng, "120000", "200000", "400000", "70000"), "nest"
